@@ -2,6 +2,7 @@
 #define PARSENUM_H_
 
 #include <assert.h>
+#include <ctype.h>
 #include <errno.h>
 #include <inttypes.h>
 #include <math.h>
@@ -176,6 +177,18 @@ parsenum_signed(const char * s, intmax_t min, intmax_t max, int base,
 	return (val);
 }
 
+/* Does the numeral (after any leading whitespace) have a minus sign? */
+static inline int
+parsenum_negative(const char * s)
+{
+
+	/* Skip the whitespace which strto*max() skips. */
+	while (isspace((unsigned char)(*s)))
+		s++;
+
+	return (*s == '-');
+}
+
 static inline uintmax_t
 parsenum_unsigned(const char * s, uintmax_t min, uintmax_t max,
     uintmax_t typemax, int base, int trailing)
@@ -191,6 +204,14 @@ parsenum_unsigned(const char * s, uintmax_t min, uintmax_t max,
 		errno = EINVAL;
 	else if ((val < min) || (val > max) || (val > typemax))
 		errno = ERANGE;
+	else if ((val != 0) && parsenum_negative(s)) {
+		/*
+		 * strtoumax() negates a numeral which has a minus sign,
+		 * wrapping modulo (UINTMAX_MAX + 1); a negative value is
+		 * never within the range of an unsigned type.
+		 */
+		errno = ERANGE;
+	}
 	return (val);
 }
 
